@@ -21,7 +21,9 @@ fn run_limited(i: &mut Interpreter, log: &Log, p: &Prog, limit: Option<u64>) -> 
     let mut r = if p.eval_entry { i.eval(&p.src, mp) } else { i.prepare(&p.src, mp) };
     let mut n = 0u64;
     loop {
-        if let Some(l) = limit { if n >= l { return (format!("abandoned@{}", n), n, false); } }
+        // (a result that already ends the run is reported as such: there is nothing left to abandon)
+        let terminal = matches!(r, Ok(StepResult::Complete(_)) | Ok(StepResult::Done) | Err(_));
+        if let Some(l) = limit { if n >= l && !terminal { return (format!("abandoned@{}", n), n, false); } }
         match r {
             Ok(StepResult::Continue) => { n += 1; if n > 300_000 { return ("budget".into(), n, true); } r = i.step(); }
             Ok(StepResult::Complete(v)) => { let mut names = tsrun::api::get_export_names(i); names.sort();
@@ -49,13 +51,14 @@ pub fn case(v: &serde_json::Value) -> serde_json::Value {
     let mut fresh: Vec<(String, String, usize)> = vec![];
     for (_, o) in &observers { let (mut i, log) = new_interp(); let (obs, _, _) = run_limited(&mut i, &log, o, None); fresh.push((obs, i.verif_summary(), i.call_depth())); }
     // length of a
-    let (a_end, a_steps) = { let (mut i, log) = new_interp(); for (p, stop) in &prefix { run_limited(&mut i, &log, p, *stop); } let (obs, n, _) = run_limited(&mut i, &log, &a, None); (obs, n) };
+    let mut prefix_completed = false;
+    let (a_end, a_steps) = { let (mut i, log) = new_interp(); for (p, stop) in &prefix { let (pobs, _, ended) = run_limited(&mut i, &log, p, *stop); if ended && pobs.starts_with("ok") { prefix_completed = true; } } let (obs, n, _) = run_limited(&mut i, &log, &a, None); (obs, n) };
     let mut points: Vec<Option<u64>> = (0..=a_steps).step_by(stride as usize).map(Some).collect();
     points.push(None);
     let mut runs = 0u64; let mut bad: Vec<serde_json::Value> = vec![]; let mut nbad = 0u64; let mut distinct_a = std::collections::HashSet::new();
     for k in &points {
         for (oi, (oname, o)) in observers.iter().enumerate() {
-            if skip_done.get(oi).copied().unwrap_or(false) && (k.is_none() || *k >= Some(a_steps)) && a_end.starts_with("ok") { continue; }
+            if skip_done.get(oi).copied().unwrap_or(false) && (prefix_completed || ((k.is_none() || *k >= Some(a_steps)) && a_end.starts_with("ok"))) { continue; }
             let r = std::panic::catch_unwind(|| {
                 let (mut i, log) = new_interp();
                 for (p, stop) in &prefix { run_limited(&mut i, &log, p, *stop); }
